@@ -1300,7 +1300,8 @@ func (up4 *UP4) modifyUP4ForwardingConfiguration(pdrs []pdr, allFARs []far, qers
 		}
 
 		tunnelPeerID, exists := up4.getGTPTunnelPeer(tunnelParameters)
-		if !exists && FAR.tunnelTEID != 0 {
+		// only a FAR towards the access network refers to a tunnel peer (updateTunnelPeersBasedOnFARs)
+		if !exists && FAR.dstIntf == ie.DstInterfaceAccess && FAR.tunnelTEID != 0 {
 			return ErrNotFoundWithParam("allocated GTP tunnel peer ID", "tunnel params", tunnelParameters)
 		}
 
